@@ -25,6 +25,10 @@ def validate_file_path_key(key: str, *, storage_path: Path) -> None:
     if key_path.parent != storage_path.resolve():
         raise StorageError((f"Key '{key}' should only reference a directory directly "
                             f"under the storage directory '{storage_path}'"))
+    if key_path.is_symlink():
+        # resolve() gives up on symlink loops and returns the rest of the
+        # path unresolved, which could then lead outside the storage directory.
+        raise StorageError(f"Key '{key}' must not reference an unresolved symbolic link")
 
 
 class NullStorage(Storage):
